@@ -270,6 +270,12 @@ ClockDominates ==
     /\ clk[r].de # Missing => clk[r].e >= clk[r].de
     /\ clk[r].dc # Missing => clk[r].c >= clk[r].dc
 
+(* after every call the edit clock covers every local head (a repository can always read back what it wrote and
+   what it merged); holds as long as clocks are never reloaded without clock loaders after their files were lost *)
+ClockCovers ==
+  \A r \in Replica : \A b \in Bugs :
+    ref[r][b] # 0 => (clk[r].e >= MaxEt(ref[r][b]) /\ clk[r].c >= MaxCt(ref[r][b]))
+
 (* every pack a replica wrote is strictly later than every pack it could see when writing it: checked as an
    action property on the step that appends commits *)
 NewCommitsDominate ==
